@@ -162,7 +162,10 @@ fn worker(args: &[String]) -> i32 {
                     idx += w;
                     continue;
                 }
-                let budget = if thorough { 3000 } else { 1500 };
+                // the verdict first: shrinking may be slow (or may itself kill the process on a tree
+                // with memory errors), and the finding must not be lost with the worker
+                let _ = writeln!(proto, "W {idx} {}", json!({"class": v.class, "detail": v.detail}));
+                let budget = shrink_budget(&case, if thorough { 3000 } else { 1500 });
                 let min = std::panic::catch_unwind(std::panic::AssertUnwindSafe(|| world.minimise(&case, &v.class, budget, &open_toggles))).unwrap_or(case.clone());
                 // detail of the minimised case
                 let mut st2 = Stats::default();
@@ -181,8 +184,9 @@ fn worker(args: &[String]) -> i32 {
                 } else if world.reports_panics() {
                     n_viol += 1;
                     let class = "panic";
+                    let _ = writeln!(proto, "W {idx} {}", json!({"class": class, "detail": format!("panic at {loc}: {msg}")}));
                     let min = if n_viol <= 3 {
-                        std::panic::catch_unwind(std::panic::AssertUnwindSafe(|| world.minimise(&case, class, 1500, &open_toggles))).unwrap_or(case.clone())
+                        std::panic::catch_unwind(std::panic::AssertUnwindSafe(|| world.minimise(&case, class, shrink_budget(&case, 1500), &open_toggles))).unwrap_or(case.clone())
                     } else {
                         case.clone()
                     };
@@ -250,6 +254,13 @@ struct Finding {
     class: String,
     detail: String,
     replay: String,
+}
+
+/// Shrinking budget in candidate evaluations, scaled down for big cases so that the time spent
+/// stays bounded (a function of the case only: the minimised file stays reproducible).
+fn shrink_budget(case: &Value, base: usize) -> usize {
+    let size = case.to_string().len().max(1);
+    base.min(30_000_000 / size).max(40)
 }
 
 fn run_single_case_subprocess(prop: &str, tier: &str, seed: u64, idx: u64, timeout: Duration) -> Option<i32> {
@@ -370,6 +381,7 @@ fn check(args: &[String]) -> i32 {
     let mut panicked_cases: u64 = 0;
     let mut crashed_cases: Vec<(u64, String)> = vec![];
     let mut hung_cases: Vec<u64> = vec![];
+    let mut provisional: BTreeMap<u64, (String, String)> = BTreeMap::new();
     let mut crash_restarts = 0u32;
     let mut samples: Vec<Value> = vec![];
     let mut known_hits: BTreeMap<String, u64> = BTreeMap::new();
@@ -410,6 +422,7 @@ fn check(args: &[String]) -> i32 {
                         evaluations += 1;
                         digests.insert(idx, dg ^ 0xBAD);
                         workers[i].last_done = Some(idx);
+                        provisional.remove(&idx);
                         findings.push(Finding {
                             idx,
                             class: v["class"].as_str().unwrap_or("?").to_string(),
@@ -417,6 +430,16 @@ fn check(args: &[String]) -> i32 {
                             replay: v["replay"].as_str().unwrap_or("").to_string(),
                         });
                         workers[i].current = None;
+                    },
+                    "W" => {
+                        let f: Vec<&str> = rest.splitn(2, ' ').collect();
+                        let idx: u64 = f[0].parse().unwrap_or(0);
+                        let v: Value = serde_json::from_str(f.get(1).copied().unwrap_or("null")).unwrap_or(Value::Null);
+                        provisional.insert(idx, (v["class"].as_str().unwrap_or("?").to_string(), v["detail"].as_str().unwrap_or("").to_string()));
+                        // shrinking gets a watchdog budget of its own
+                        if let Some((cur, _)) = workers[i].current {
+                            workers[i].current = Some((cur, Instant::now()));
+                        }
                     },
                     "K" => {
                         let f: Vec<&str> = rest.split(' ').collect();
@@ -517,6 +540,17 @@ fn check(args: &[String]) -> i32 {
         let _ = ws.child.wait();
     }
 
+    // a worker that died or hung while SHRINKING a violation it had already reported: the
+    // violation stands, with the case as generated
+    for (idx, (class, detail)) in provisional.iter() {
+        let mut rng = Rng::for_case(seed, domain(&prop), *idx);
+        let case = world.gen(&mut rng, thorough);
+        let path = write_replay(&prop, world.world_name(), seed, *idx, class, detail, &case, "viol");
+        findings.push(Finding { idx: *idx, class: class.clone(), detail: format!("{detail} (not minimised: the worker did not survive shrinking)"), replay: path });
+    }
+    crashed_cases.retain(|(i, _)| !provisional.contains_key(i));
+    hung_cases.retain(|i| !provisional.contains_key(i));
+
     // confirm crashes and hangs in isolation so that load cannot produce a false alarm
     let mut confirmed: Vec<Finding> = vec![];
     let confirm = world.reports_crashes();
@@ -544,7 +578,12 @@ fn check(args: &[String]) -> i32 {
             let path = write_replay(&prop, world.world_name(), seed, *idx, "hang", &detail, &case, "hang");
             confirmed.push(Finding { idx: *idx, class: "hang".into(), detail, replay: path });
         } else if r != Some(0) {
-            harness_errors.push(format!("case {idx} exceeded the watchdog and exited {:?} when re-run", r));
+            // slow under load the first time, dead when re-run alone: a crash like any other
+            let mut rng = Rng::for_case(seed, domain(&prop), *idx);
+            let case = world.gen(&mut rng, thorough);
+            let detail = format!("case exceeded the watchdog, and the worker process died when it was re-run alone: {:?}", r);
+            let path = write_replay(&prop, world.world_name(), seed, *idx, "abort", &detail, &case, "crash");
+            confirmed.push(Finding { idx: *idx, class: "abort".into(), detail, replay: path });
         }
     }
     for (idx, st) in crashed_cases.iter().take(5) {
